@@ -170,17 +170,17 @@ theorem getBool_putBool (b : Bool) (rest : Bytes) : getBool (putBool b ++ rest) 
   rw [getInt_putInt 1 _ rest (by decide) (inInt1_01 b)]
   cases b <;> simp
 
-theorem getArrayLength_put (n : Int) (rest : Bytes) (h : InInt 4 n) (hr : n ≤ rest.length) (hm : n ≤ 131070) :
-    getArrayLength (putArrayLength n ++ rest) = some (n, rest) := by
+theorem getArrayLength_put (n : Int) (rest : Bytes) (h : InInt 4 n) (hr : n ≤ rest.length) (hm : n ≤ 131070)
+    (hneg : -1 ≤ n) : getArrayLength (putArrayLength n ++ rest) = some (n, rest) := by
   unfold getArrayLength putArrayLength
   rw [getInt_putInt 4 n rest (by decide) h]
-  simp only [show ¬ n > (rest.length : Int) by omega, show ¬ n > 131070 by omega, ↓reduceIte]
+  simp only [show ¬ n > (rest.length : Int) by omega, show ¬ (n > 131070 ∨ n < -1) by omega, ↓reduceIte]
 
-theorem getCompactArrayLength_put (n : Nat) (rest : Bytes) (h : n + 1 < 2 ^ 64) :
+theorem getCompactArrayLength_put (n : Nat) (rest : Bytes) (h : n + 1 < 2 ^ 64) (hr : n ≤ rest.length) :
     getCompactArrayLength (putCompactArrayLength n ++ rest) = some (n, rest) := by
   unfold getCompactArrayLength putCompactArrayLength
   rw [getUVarint_putUVarint _ rest h]
-  simp only [Nat.add_sub_cancel]
+  simp only [Nat.add_sub_cancel, show ¬ n > rest.length by omega, ↓reduceIte]
 
 theorem getEmptyTagged_put (rest : Bytes) : getEmptyTagged (putEmptyTagged ++ rest) = some ((), rest) := by
   unfold getEmptyTagged putEmptyTagged
@@ -353,7 +353,17 @@ theorem getStringArray_put (ss : List Bytes) (rest : Bytes) (hl : ss.length < 2 
     (h : ∀ s ∈ ss, s.length < 2 ^ 15) : getStringArray (putStringArray ss ++ rest) = some (ss, rest) := by
   unfold getStringArray putStringArray putArrayLength putInt
   rw [List.append_assoc, toU4_len _ hl, getUInt_be 4 _ _ (by simp only [Nat.reducePow] at *; omega)]
-  simp only [getStrings_putStrings ss rest h]
+  have hlen : ss.length ≤ (putStrings ss).length := by
+    clear h hl
+    induction ss with
+    | nil => simp
+    | cons s ss ih =>
+      have e : putStrings (s :: ss) = putString s ++ putStrings ss := by simp [putStrings]
+      rw [e, List.length_append, List.length_cons]
+      have : 2 ≤ (putString s).length := by simp [putString, putInt_length]
+      omega
+  simp only [List.length_append, show ¬ ss.length > (putStrings ss).length + rest.length by omega, ↓reduceIte,
+    getStrings_putStrings ss rest h]
 
 /-! ### sizes: what the prep encoder adds is what the real encoder writes -/
 
